@@ -13,8 +13,36 @@ class C01(Spec):
     quick = {'runs': 2500, 'wall': 75}
     thorough = {'runs': 3000000, 'wall': 900}
 
+    NT_BASE = 10
+
+    @staticmethod
+    def _nt_enum():
+        """Number theory on small inputs, enumerated: inverse for coprime (a, b) over a spread of residues (the divstep
+        loops leave their result in different ranges that are reduced at the end), gcd / lcm / gcdext for the rest."""
+        import math
+        out = []
+        for b in range(2, 41):
+            for a in sorted({1, 2, 3, b - 1, b - 2, b // 2 + 1, b + 1, 2 * b - 1, 3 * b + 2, 7 * b + 3}):
+                if a < 0:
+                    continue
+                if math.gcd(a, b) == 1:
+                    out.append(('inverse', a, b))
+                else:
+                    out.append((('gcd', 'lcm', 'gcdext')[(a + b) % 3], a, b))
+        return out
+
     def make_case(self, seed, tier):
         rng = random.Random(f'C01/{seed}')
+        enum = self._nt_enum()
+        i = seed % 1000003 - self.NT_BASE
+        if 0 <= i < len(enum):
+            opn, a, b = enum[i]
+            cfg = sample_cfg(rng, tier, m_max=3)
+            lb = max(a, b).bit_length() + 1
+            outs = ['r', 'q'] if opn == 'gcdext' else ['r']
+            prog = intfam.gen_fixed(cfg, 16, [('a', a), ('b', b)], [[opn, outs, ['a', 'b'], {'l': lb}]], outs,
+                                    sender=rng.randrange(cfg.m))
+            return {'family': 'int', 'cfg': cfg.to_json(), 'prog': prog, 'seed': seed}
         cfg = sample_cfg(rng, tier)
         heavy = rng.random() < (0.06 if tier == 'quick' else 0.15)
         prog = intfam.gen(rng, cfg, tier, effects=False, heavy=heavy,
@@ -1225,7 +1253,7 @@ def _kf_c05(self, tier):
                   'stmts': [['input', 'x1', [], {'value': -0.0011358261108398438, 'sender': 0, 'dummy': 1.5}],
                             ['input', 'x2', [], {'value': 0.0, 'sender': 0, 'dummy': 1.5}], ['sub', 'x3', ['x2', 'x1'], {}]],
                   'outputs': ['x3'], 'receivers': None, 'tags': ['flt_add_zero']}},
-        {'family': 'flt', 'cfg': _cfgj(2, 0, no_prss=True),
+        {'family': 'flt', 'cfg': _cfgj(1, 0), 'rand_seed': 1,      # the rounding inside 1/s is probabilistic: fixed randomness
          'prog': {'family': 'flt', 'type': {'s': 8, 'e': 8},
                   'stmts': [['input', 'x1', [], {'value': 1.0, 'sender': 0, 'dummy': 1.5}], ['reciprocal', 'x4', ['x1'], {}]],
                   'outputs': ['x4'], 'receivers': None, 'tags': ['flt_div_edge']}},
